@@ -48,6 +48,7 @@ type Out struct {
 	Err  bool   `json:"err,omitempty"`  // Go error returned (Template/TemplateValue) or ok=false (session)
 	NErr int    `json:"nerr,omitempty"` // error events logged (session)
 	US   int64  `json:"us"`
+	CPU  int64  `json:"cpu"` // CPU time of this one evaluation, microseconds
 }
 
 type Resp struct {
@@ -115,10 +116,21 @@ func describeValue(o *Out, v types.XValue, full bool) {
 	o.RV = r
 }
 
+// CPU time (user + system, all threads) this process has used, in microseconds
+func processCPU() int64 {
+	var ru syscall.Rusage
+	if syscall.Getrusage(syscall.RUSAGE_SELF, &ru) != nil {
+		return 0
+	}
+	return (ru.Utime.Sec+ru.Stime.Sec)*1000000 + int64(ru.Utime.Usec+ru.Stime.Usec)
+}
+
 func guarded(f func(o *Out)) (o Out) {
 	t0 := time.Now()
+	c0 := processCPU()
 	defer func() {
 		o.US = time.Since(t0).Microseconds()
+		o.CPU = processCPU() - c0
 		if r := recover(); r != nil {
 			o.St = "panic"
 			o.Msg = fmt.Sprint(r)
